@@ -7,7 +7,7 @@ the tracepoint logger received, with the ids it was given, and with the snapshot
 import random
 import re
 
-from simkit import common
+from simkit import common, shims
 from simkit.common import V
 from simkit.refmodel import RefLimiter, esc
 from . import hitcommon
@@ -18,7 +18,7 @@ BUDGET = {"quick": (3000, 35), "thorough": (800_000, 540)}
 RULE = ("template grammar (literal text incl. unicode and punctuation, '{{' / '}}', 0-4 fields naming locals, "
         "attribute / index / call expressions, expressions over host globals, failing expressions) x 2-8 hits with "
         "generated locals x log-only and collecting tracepoints x fire_count in {1,2,-1} x recording logger or the "
-        "built-in PythonPlugin logger; non-trivial = at least one message with a field was checked; distinct = "
+        "built-in PythonPlugin logger x (10%) a collecting tracepoint on the same line whose delivery is refused because another thread shuts the agent down during the event; non-trivial = at least one message with a field was checked; distinct = "
         "distinct (template, rows, mode) keys")
 COMPONENTS = {"real": ["whole Deep agent", "string.Formatter based log processing", "PythonPlugin (logger arm)"],
               "stub": ["threads/clock/executor", "gRPC channel + DEEP service", "recording TracepointLogger"]}
@@ -40,7 +40,42 @@ FIELDS_OK = ("i", "val", "name", "flag", "person", "person.name", "person.age", 
 #: fields whose evaluation changes what the next evaluation yields: each occurrence is evaluated in its own place
 IMPURE = ("next(cnt)",)
 FIELDS_BAD = ("nosuch", "person.nope", "data['zz']", "1 / 0", "host_raise('kaboom')", "time_ns", "nosuch[1:]",
-              "sum(v * nosuch for v in data['l'])")
+              "sum(v * nosuch for v in data['l'])",
+              # the failure itself cannot be turned into text
+              "host_raise_rude()", "G_TAB[G_BADNUM]", "x")
+
+
+ANY = None
+
+
+def wild_match(tokens, text):
+    """Does text consist of the literal tokens in order, with anything (or nothing) where a token is ANY?  Linear."""
+    chunks, gap = [""], [False]
+    for t in tokens:
+        if t is ANY:
+            if chunks[-1] != "" or len(chunks) == 1:
+                chunks.append("")
+                gap.append(True)
+            else:
+                gap[-1] = True
+        else:
+            chunks[-1] += t
+    # chunks[i] is preceded by a gap iff gap[i]; the first chunk is anchored at the start, the last at the end
+    pos = 0
+    for i, c in enumerate(chunks):
+        last = i == len(chunks) - 1
+        if not gap[i]:
+            if not text.startswith(c, pos):
+                return False
+            pos += len(c)
+        elif last:
+            return len(text) - len(c) >= pos and text.endswith(c)
+        else:
+            j = text.find(c, pos)
+            if j < 0:
+                return False
+            pos = j + len(c)
+    return pos == len(text) if not gap[-1] or chunks[-1] != "" else True
 
 
 def gen_template(r):
@@ -71,10 +106,15 @@ def template_text(parts):
 
 def generate(seed, tier):
     r = random.Random(seed)
-    return {"rows": hitcommon.gen_rows(r, r.randrange(2, 9)), "parts": gen_template(r),
-            "collect": r.random() < 0.5, "fire_count": r.choice(("1", "2", "-1")),
-            "logger": r.choice(("rec", "rec", "python")), "via": r.choice(("service", "register")),
-            "knobs": common.draw_knobs(r, stall_p=0.0)}
+    sc = {"rows": hitcommon.gen_rows(r, r.randrange(2, 9)), "parts": gen_template(r),
+          "collect": r.random() < 0.5, "fire_count": r.choice(("1", "2", "-1")),
+          "logger": r.choice(("rec", "rec", "python")), "via": r.choice(("service", "register")),
+          "knobs": common.draw_knobs(r, stall_p=0.0)}
+    if r.random() < 0.1:
+        # a collecting tracepoint shares the line with the log-only one, and another thread shuts the agent down while
+        # the event of hit number stop_at is being completed: the snapshot is refused, the message is not affected
+        sc.update(collect=False, via="service", fire_count="-1", logger="rec", stop_at=r.randrange(0, len(sc["rows"])))
+    return sc
 
 
 def shrink_candidates(s):
@@ -86,6 +126,8 @@ def shrink_candidates(s):
             yield dict(s, rows=cand)
     if s["collect"]:
         yield dict(s, collect=False)
+    if s.get("stop_at") is not None:
+        yield {k_: v for k_, v in s.items() if k_ != "stop_at"}
 
 
 def execute(s, ch):
@@ -98,7 +140,24 @@ def execute(s, ch):
         args = {"fire_count": s["fire_count"], "fire_period": "0", "log_msg": tmpl}
         if not s["collect"]:
             args["snapshot"] = "no_collect"
-        if s["via"] == "service":
+        if s.get("stop_at") is not None:
+            snap_args = {"fire_count": "-1", "fire_period": "0"}
+            w.service.set_config([w.service.make_tp("tpSNAP", p.basename, hitcommon.TP_LINE, snap_args, []),
+                                  w.service.make_tp("tpLOG", p.basename, hitcommon.TP_LINE, args, [])], "h1")
+            w.deep.poll.poll()
+            orig_push = w.deep.push.push_snapshot
+
+            def push_snapshot(snapshot):
+                if state["hit"] == s["stop_at"] and not state["stopped"]:
+                    # as if this thread were pre-empted right here and another thread ran Deep.shutdown() meanwhile
+                    state["stopped"] = True
+                    k.fault("shutdown_during_event")
+                    t = shims.SimThread(target=w.deep.shutdown, name="stopper")
+                    t.start()
+                    t.join()
+                return orig_push(snapshot)
+            w.deep.push.push_snapshot = push_snapshot
+        elif s["via"] == "service":
             w.service.set_config([w.service.make_tp("tpLOG", p.basename, hitcommon.TP_LINE, args, [])], "h1")
             w.deep.poll.poll()
         else:
@@ -107,6 +166,10 @@ def execute(s, ch):
             me = k.me().name
             s["_reg_ids"] = [u for (t_, u) in k.uuids[n0:] if t_ == me]
 
+    state = {"hit": None, "stopped": False}
+
+    def mid(w, k, i):
+        state["hit"] = i
     plugins = [{"name": "RecLogger", "kinds": ["logger"], "order": -5}] if s["logger"] == "rec" else []
     import logging
     logging.getLogger("deep").setLevel(logging.INFO if s["logger"] == "python" else logging.WARNING)
@@ -120,7 +183,7 @@ def execute(s, ch):
     if s["logger"] == "python":
         logging.getLogger("deep").addHandler(hnd)
     try:
-        k, hits, ctx = hitcommon.run_hits(s, ch, install, pure_fields, plugins=plugins, python_plugin=(s["logger"] == "python"),
+        k, hits, ctx = hitcommon.run_hits(s, ch, install, pure_fields, plugins=plugins, python_plugin=(s["logger"] == "python"), mid=mid,
                                           deep_log_level=logging.INFO if s["logger"] == "python" else None)
     finally:
         logging.getLogger("deep").removeHandler(hnd)
@@ -134,9 +197,11 @@ def execute(s, ch):
     py_i = 0
     for h in hits:
         cap = h.cap
+        if s.get("stop_at") is not None and h.index > s["stop_at"]:
+            break       # the agent has been shut down
         exp = lim.hit(h.index + 1)
         logs = [e for e in h.effects if e[0] == "log"]
-        snaps = [e for e in h.effects if e[0] == "snapshot"]
+        snaps = [e for e in h.effects if e[0] == "snapshot" and e[1] != "tpSNAP"]
         if s["logger"] == "python":
             # PythonPlugin logs through deep.logging: one INFO record per message, in order
             n_msgs = None
@@ -149,30 +214,29 @@ def execute(s, ch):
         if not exp:
             continue
         # ------------------------------------------------ independent rendering on the reference frame
-        pat = [re.escape("[deep] ")]
+        pat = ["[deep] "]
         plain = "[deep] "
         exact = True
         n_next = 0
         for kind, t in s["parts"]:
             if kind == "lit":
-                pat.append(re.escape(t))
+                pat.append(t)
                 plain += t
             elif t == "next(cnt)":
                 # the k-th occurrence in the message takes the k-th value of this hit's own iterator
                 txt = str(h.index * 10 + n_next)
                 n_next += 1
-                pat.append(re.escape(txt))
+                pat.append(txt)
                 plain += txt
             else:
                 st, val = cap["exprs"][t]
                 if st == "ok":
                     txt = val.text if val.text is not None else str(val.obj)
-                    pat.append(re.escape(txt))
+                    pat.append(txt)
                     plain += txt
                 else:
                     exact = False
-                    pat.append("(?s:.*)" + re.escape(str(val)) + "(?s:.*)")
-        rx = re.compile("".join(pat) + r"\Z")
+                    pat += [ANY, hitcommon.etext(val), ANY]
         if s["logger"] == "rec":
             msg, a_tp, a_ctx = logs[0][2]
         else:
@@ -187,9 +251,9 @@ def execute(s, ch):
                 continue
             msg, a_ctx, a_tp = m.group(1), m.group(2), m.group(3)
         checked += 1
-        if not rx.match(msg):
+        if not wild_match(pat, msg):
             viol.append(V("message-text" + ("" if exact else ":with-failing-field"),
-                          "template %r rendered %r, independent rendering %r" % (tmpl, msg, plain if exact else rx.pattern)))
+                          "template %r rendered %r, independent rendering %r" % (tmpl, msg, plain if exact else "".join("<anything>" if t is ANY else t for t in pat))))
         if not msg.startswith("[deep] "):
             viol.append(V("prefix-missing", repr(msg[:40])))
         # ------------------------------------------------ ids, each in its own place
